@@ -104,6 +104,7 @@ func (x *XNode) IsDir() bool { return x.Kind != KLeaf && x.Kind != KLeafList }
 type compiler struct {
 	s         *Scenario
 	ignoreNS  bool
+	tdMemo    map[*Typedef]*XType // resolved typedefs (chains with fan-out would otherwise cost 2^depth)
 	out       *Compiled
 	gstack    []*Grouping
 	conflicts map[string]bool
@@ -473,7 +474,14 @@ func (c *compiler) resolveType(ctx *Mod, t *Type, depth int) *XType {
 			c.conflict("unknown typedef %s:%s", t.Ref.Mod, t.Ref.Name)
 			return &XType{Kind: "none", Name: t.Ref.Name}
 		}
-		base := c.resolveType(c.s.Mod(t.Ref.Mod), td.Type, depth+1)
+		if c.tdMemo == nil {
+			c.tdMemo = map[*Typedef]*XType{}
+		}
+		base, ok := c.tdMemo[td]
+		if !ok {
+			base = c.resolveType(c.s.Mod(t.Ref.Mod), td.Type, depth+1)
+			c.tdMemo[td] = base
+		}
 		cp := *base
 		cp.Union = append([]*XType(nil), base.Union...)
 		x = &cp
